@@ -232,6 +232,11 @@ def cases(draw, tier):
             inner['roots'] = inner['roots'][:2]
             if draw(st.booleans()) and abs(num(outer['start'])) < 1e5:
                 outer['till'] = inner['till'] = num(outer["start"]) + draw(st.sampled_from([1, 2, 3.5, 6]))
+        if draw(st.integers(0, 2)) == 0 and all(r['name'] not in ('ih', 'iw') for r in inner['roots']):
+            # ... which runs a simulation of its own somewhere on its way (three simulations alive at once)
+            innermost = _renamed(draw(small_prog(tier, roots=(1, 2))), 'm')
+            r2 = inner['roots'][draw(st.integers(0, len(inner['roots']) - 1))]
+            r2['steps'].insert(draw(st.integers(0, len(r2['steps']))), {'op': 'nested_run', 'prog': innermost, 'id': 1})
         ri = draw(st.integers(0, len(outer['roots']) - 1))
         pos = draw(st.integers(0, len(outer['roots'][ri]['steps'])))
         return {'kind': 'nesting', 'outer': outer, 'inner': inner, 'root': ri, 'pos': pos}
